@@ -379,13 +379,35 @@ func (f *fileLike) Read(p []byte) (int, error) {
 	return n, nil
 }
 
-// countW is the writer handed to Compress: it keeps everything and counts bytes and calls.
+// countW is the writer handed to Compress: it keeps everything and counts bytes and calls. Its
+// memory comes from the free list (see getBuf) and goes back there with release().
 type countW struct {
-	buf   bytes.Buffer
+	buf   wbuf
 	calls int
+}
+
+// wbuf is a minimal append-only byte buffer (the subset of bytes.Buffer the harness uses).
+type wbuf struct{ b []byte }
+
+func (w *wbuf) Len() int      { return len(w.b) }
+func (w *wbuf) Bytes() []byte { return w.b }
+func (w *wbuf) write(p []byte) {
+	if len(w.b)+len(p) > cap(w.b) {
+		nb := getBuf(2*cap(w.b) + len(p) + 4096)[:len(w.b)]
+		copy(nb, w.b)
+		putBuf(w.b)
+		w.b = nb
+	}
+	w.b = append(w.b, p...)
 }
 
 func (w *countW) Write(p []byte) (int, error) {
 	w.calls++
-	return w.buf.Write(p)
+	w.buf.write(p)
+	return len(p), nil
+}
+
+func (w *countW) release() {
+	putBuf(w.buf.b)
+	w.buf.b = nil
 }
